@@ -600,12 +600,41 @@ class Executor:
             t = c.split(": ", 1)[1] if c.startswith("ZeroSized: ") else c
             return FnItem(t)
         if re.match(r"[A-Za-z_<]", c):
+            f = self.prog.consts.get(c)
+            if f is not None:
+                fr2 = Frame(f.parse())
+                self.run_frame(fr2)
+                return fr2.cells[0].v
+            agg = self.const_aggregate(fr, c)
+            if agg is not None:
+                return agg
             # an associated const or a fn item used as a value
             known = self.h.const_value(c) if hasattr(self.h, "const_value") else None
             if known is not None:
                 return known
             return FnItem(c)
         raise Unsupported(f"constant {c!r}")
+
+    def const_aggregate(self, fr, c):
+        """A constant printed as a value expression: `Path::Variant(consts..)` or a unit variant."""
+        from .parse import skip_balanced, split_top
+        j = 0
+        while True:
+            j = skip_balanced(c, j, "(")
+            if j >= len(c):
+                ev = self.enum_of(c)
+                return self.mk_enum(ev[0], ev[1]) if ev else None
+            if c[j - 1] not in " :<" and c.endswith(")") and skip_balanced(c, j + 1, ")") == len(c) - 1:
+                break
+            j = skip_balanced(c, j + 1, ")") + 1
+        ev = self.enum_of(c[:j])
+        if not ev:
+            return None
+        fields = {}
+        for i, part in enumerate(split_top(c[j + 1:-1])):
+            part = part[6:] if part.startswith("const ") else part
+            fields[i] = self.const(fr, part)
+        return self.mk_enum(ev[0], ev[1], fields)
 
     def eval_promoted(self, c):
         f = self.prog.find_const(c)
